@@ -10,6 +10,7 @@ RULE = ("seeded datasets (families uniform/near/sparse/blocky/dup/complete; int,
 TRUSTED = ["Lean 4 kernel", "axioms: propext, Classical.choice, Quot.sound (audited per theorem)",
            "hand translation of pairwisebasedalgorithm.py:13-96 and dataset.py:382-408 (tied by this run)",
            "harness encoding / Lean driver parser", "float64 exact on the dyadic penalty grid"]
+# 15% of the datasets have a past: matrices and table asked, dataset modified in place, table asked again
 ASSUMPTIONS = ["penalties are dyadic rationals: float arithmetic of the implementation is exact on them"]
 
 
@@ -24,7 +25,15 @@ def gen(rng, index, tier):
     n = len(elems)
     sch = lib.gen_scheme(rng, max_pairs=len(raw) * n * (n - 1) // 2 + 1)
     cand, _ = lib.gen_candidate(rng, elems, "exact")
-    return {"dataset": raw, "scheme": sch, "candidate": cand, "meta": meta}
+    case = {"dataset": raw, "scheme": sch, "candidate": cand, "meta": meta}
+    if rng.random() < 0.15:
+        # a dataset with a past: queried (matrices, table), modified in place, then the table is asked again
+        import common
+        case["past"] = common.gen_past(rng, raw)
+        if rng.random() < 0.5 and not any(len(r) == 0 for r in raw):
+            case["dataset"] = raw[:1] + [[]] + raw[1:]
+            case["past"] = [["query"], ["remove_empty"]]
+    return case
 
 
 SMALL_SCHEMES = [
@@ -61,6 +70,14 @@ def impl(case):
     try:
         ds = lib.make_dataset(case["dataset"])
         sch = lib.make_scheme(case["scheme"])
+        candidate = _conv_candidate(case, ds)
+        if case.get("past"):
+            import common
+            common.apply_past(ds, sch, case["past"],
+                              extra_query=lambda: (PairwiseBasedAlgorithm.pairwise_cost_matrix(ds.get_positions(), sch),
+                                                   PairwiseBasedAlgorithm.pairwise_cost_matrix(ds.get_bucket_ids(), sch)))
+            left = {e.value for e in ds.universe}
+            candidate = [b2 for b2 in ([x for x in b if x in left] for b in candidate) if b2]
         obs = lib.observe_dataset(ds, coder)
         s = case["scheme"]["scale"]
         univ = [coder.code(ds.mapping_id_elem[i].value) for i in range(ds.nb_elements)]
@@ -68,7 +85,7 @@ def impl(case):
         bid = ds.get_bucket_ids()
         tp = PairwiseBasedAlgorithm.pairwise_cost_matrix(pos, sch)
         tb = PairwiseBasedAlgorithm.pairwise_cost_matrix(bid, sch)
-        cand = lib.observe_ranking(lib.make_ranking(_conv_candidate(case, ds)), coder)
+        cand = lib.observe_ranking(lib.make_ranking(candidate), coder)
         return {"obs": obs, "univ": univ, "pos": pos.tolist(), "bid": bid.tolist(),
                 "tp": [[[lib.to_int(x, s) for x in cell] for cell in row] for row in tp.tolist()],
                 "tb": [[[lib.to_int(x, s) for x in cell] for cell in row] for row in tb.tolist()],
@@ -127,6 +144,8 @@ def judge(case, out, answers):
             "n:%d" % n, "m:%d" % len(raw)]
     if any(len(r) == 0 for r in raw):
         tags.append("has-empty-ranking")
+    if case.get("past"):
+        tags.append("dataset-with-a-past")
     return {"agree": not diff, "holds": holds, "diff": "; ".join(diff), "nontrivial": nontrivial, "tags": tags}
 
 
